@@ -15,6 +15,10 @@ Any3 == Consumer \cup Waiter \cup Observer
 Scen3 == {[t \in Threads |-> IF t = 1 THEN a ELSE IF t = 2 THEN b ELSE c] : a \in P1, b \in Any2, c \in Any3}
 \* the wake-up protocol alone (C07): one or two waiters against producers with nested DisableQueueNotify scopes
 W2 == {[t \in Threads |-> IF t = 1 THEN a ELSE b] : a \in {<<K("dqn_on"), Enq(1), K("dqn_off")>>, <<K("dqn_on"), K("dqn_on"), Enq(1), K("dqn_off"), K("dqn_off")>>, <<Enq(1)>>}, b \in Waiter}
+\* two waiters, or a waiter and a consumer, against a producer with a DisableQueueNotify scope
+W3 == {[t \in Threads |-> IF t = 1 THEN a ELSE IF t = 2 THEN b ELSE c] :
+         a \in {<<K("dqn_on"), Enq(1), K("dqn_off")>>, <<K("dqn_on"), Enq(1), Enq(2), K("dqn_off")>>, <<Enq(1), Enq(2)>>},
+         b \in Waiter, c \in Waiter \cup {<<K("process")>>, <<K("dqn_on"), K("dqn_off")>>}}
 \* single named scenarios (the harness replays counterexamples of these: model thread t = harness thread t-1)
 SDqnWaiter == {[t \in Threads |-> IF t = 1 THEN <<K("dqn_on"), Enq(1), K("dqn_off")>> ELSE <<K("wait"), K("process")>>]}
 SEmptyOrder == {[t \in Threads |-> IF t = 1 THEN <<Enq(1), K("process")>> ELSE IF t = 2 THEN <<K("empty")>> ELSE <<>>]}
